@@ -245,7 +245,7 @@ var c13Templates = []sim.Template{
 var c13Profile = &sim.Profile{
 	W: map[string]int{
 		"login": 16, "totp_setup": 8, "totp_confirm": 8, "totp_remove": 6, "totp_validate": 6, "totp_confirm_get": 2, "sms_setup": 8, "sms_confirm": 8,
-		"sms_remove": 6, "sms_validate": 6, "regen": 3, "ev_start": 6, "ev_end": 8, "logout": 3, "dropsid": 3, "visit": 3, "advance": 4, "get": 4, "steal": 1, "raw": 1,
+		"sms_remove": 6, "sms_validate": 6, "regen": 3, "ev_start": 6, "ev_end": 8, "logout": 3, "dropsid": 3, "visit": 3, "advance": 4, "get": 4, "steal": 1, "raw": 1, "faultnext": 3,
 	},
 	Cls: map[string]map[string]int{
 		"login": {"ok": 90, "wrong": 10},
